@@ -28,11 +28,11 @@ def consts(**kw):
 
 
 def mc_run(v, wd, name, c, init="MCInit", invs=INVS, timeout=600, expect=None, simulate=None,
-           depth=None, module="MCSync.tla", next_="MCNext", view="View"):
+           depth=None, module="MCSync.tla", next_="MCNext", view="View", coverage=False):
     cfg = write_cfg(os.path.join(wd, name + ".cfg"), c, init=init, next_=next_,
                     invariants=invs, view=view)
     r = tlc_check(wd, name, module, cfg, timeout=timeout, simulate=simulate, depth=depth,
-                  seed_=seed())
+                  seed_=seed(), coverage=coverage)
     log(f"[mc] {name}: {r['distinct']} distinct / {r['states']} generated, depth {r['depth']}, "
         f"{r['wall_s']}s, violated={r['violated']}, timed_out={r['timed_out']}")
     v.mc(r, expect_violation=expect)
